@@ -24,6 +24,7 @@ structure World where
   eps : List (Nat × EpRec) := []          -- ascending id
   onaccept : List ((Nat × String) × Nat) := []
   routes : List ((Nat × String) × Nat) := []
+  maxDelivered : List ((Nat × Nat) × Nat) := []
   live : Nat := 0
   liveNodes : Nat := 0
   out : Array String := #[]
@@ -37,6 +38,11 @@ def insertEp (id : Nat) (r : EpRec) : List (Nat × EpRec) → List (Nat × EpRec
   | (k, v) :: rest => if id < k then (id, r) :: (k, v) :: rest else if id == k then (k, r) :: rest else (k, v) :: insertEp id r rest
 
 def World.setEp (w : World) (id : Nat) (r : EpRec) : World := { w with eps := insertEp id r w.eps }
+
+def World.noteDelivered (w : World) (dst src idx : Nat) : World :=
+  match w.maxDelivered.find? (fun (p : (Nat × Nat) × Nat) => p.1 == (dst, src)) with
+  | some (_, m) => if idx > m then { w with maxDelivered := ((dst, src), idx) :: w.maxDelivered.filter (fun p => p.1 != (dst, src)) } else w
+  | none => { w with maxDelivered := ((dst, src), idx) :: w.maxDelivered }
 
 def kindName : Kind → String
   | .node => "node" | .chan => "chan" | .chal => "chal" | .conn => "conn" | .lsn => "lsn" | .open_ => "open"
@@ -188,7 +194,7 @@ def World.destroyEp (w : World) (id : Nat) : World :=
 
 def World.destroyAll (w : World) : World :=
   let w := (w.eps.map (·.1)).foldl World.destroyEp w
-  { w with onaccept := [], routes := [] }
+  { w with onaccept := [], routes := [], maxDelivered := [] }
 
 def toNat! (s : String) : Nat := s.toNat?.getD 0
 def toInt! (s : String) : Int := s.toInt?.getD 0
@@ -307,6 +313,13 @@ def World.step (w : World) (line : String) : World :=
         | .conn wr => w.say s!"ret {boolDigit wr.ep.c.bClose} {wr.ep.c.closeReason}"
         | _ => w
       | none => w
+    | "rpl" =>
+      match w.getEp (n 0), w.getEp (n 1), w.maxDelivered.find? (fun (p : (Nat × Nat) × Nat) => p.1 == (n 0, n 1)) with
+      | some r, some s, some (_, m) =>
+        match r.node, (if n 2 ≤ m then s.outbox[m - n 2]? else none) with
+        | .conn _, some d => w.deliverConn (n 0) d false
+        | _, _ => w.say "ret none"
+      | _, _, _ => w.say "ret none"
     | "peek" | "dlv" | "wdlv" | "mut" | "wmut" =>
       let dst := n 0
       match w.getEp dst, w.getEp (n 1) with
@@ -315,7 +328,9 @@ def World.step (w : World) (line : String) : World :=
         | .conn wr, some d =>
           let d := if op == "mut" || op == "wmut" then mutate d (a 3) (n 4) (n 5) else d
           if op == "peek" then (w.say "cstate same").say s!"ret {wr.ep.peek w.env d}"
-          else w.deliverConn dst d (op.startsWith "w")
+          else
+            let w := if op == "dlv" || op == "wdlv" then w.noteDelivered dst (n 1) ((s.cur : Int) + toInt! (a 2)).toNat else w
+            w.deliverConn dst d (op.startsWith "w")
         | _, _ => w.say "ret none"
       | _, _ => w.say "ret none"
     | "dln" | "wdln" =>
@@ -323,7 +338,7 @@ def World.step (w : World) (line : String) : World :=
       | some r, some s =>
         match r.node, s.outbox[s.cur]? with
         | .conn _, some d =>
-          let w := w.setEp (n 1) { s with cur := s.cur + 1 }
+          let w := (w.setEp (n 1) { s with cur := s.cur + 1 }).noteDelivered (n 0) (n 1) s.cur
           w.deliverConn (n 0) d (op.startsWith "w")
         | _, _ => w.say "ret none"
       | _, _ => w.say "ret none"
@@ -337,7 +352,7 @@ def World.step (w : World) (line : String) : World :=
             match w.getEp (n 1) with
             | some s =>
               match s.outbox[s.cur]? with
-              | some d => (w.setEp (n 1) { s with cur := s.cur + 1 }).deliverConn (n 0) d (op.startsWith "w")
+              | some d => ((w.setEp (n 1) { s with cur := s.cur + 1 }).noteDelivered (n 0) (n 1) s.cur).deliverConn (n 0) d (op.startsWith "w")
               | none => w
             | none => w) w
         | _ => w
